@@ -489,6 +489,8 @@ type analyser struct {
 	evenStep  map[types.Object]bool // scratch of assignedIn: every assignment is `+= even constant`
 	boolDef   map[types.Object]ast.Expr
 	x         *xinfo
+	tainted   map[types.Object]bool // fact F6: locals that (may) hold bytes of the command words (flow-insensitive, per function)
+	errTaint  map[types.Object]bool // … error values of calls that received such bytes (callee not known to return constant errors)
 }
 
 // what is shared by all packages: the registered executors and how they are called
@@ -497,6 +499,312 @@ type xinfo struct {
 	escaped  map[types.Object]bool // … that are also used as a value somewhere else
 	execType types.Type            // memdb.cmdExecutor
 	calls    []execCall
+	replies  []replySite           // fact F6
+	literal  int                   // line-reply constructor calls whose payload is a compile-time constant
+	constErr map[types.Object]bool // functions whose every returned error is nil or an error with a compile-time constant text
+}
+
+// Fact F6 — a call of a constructor whose payload is sent as a LINE (simple string `+…`, error `-…`, plain): the payload must not
+// contain CR or LF.  Recorded: every such call whose payload is not a compile-time constant string; `client` says that the payload is
+// derived from the command words (a [][]byte parameter: cmd[i], string(cmd[i]), strings.ToLower(string(cmd[i])), concatenations,
+// fmt.Sprintf with such an argument, the error of a call that received one, locals assigned from any of these — flow-insensitively).
+type replySite struct {
+	File   string `json:"file"`
+	Func   string `json:"func"`
+	Line   int    `json:"line"`
+	Text   string `json:"text"`
+	Client bool   `json:"client"`
+	ViaErr bool   `json:"via_err"` // only through the error value of a call that received client bytes (callee not proved to return constant errors)
+}
+
+var lineCtors = map[string]bool{"MakeStringData": true, "MakeErrorData": true, "MakeWrongNumberArgs": true, "MakePlainData": true}
+var lineTypes = map[string]bool{"StringData": true, "ErrorData": true, "PlainData": true}
+
+func isTaintType(t types.Type) bool {
+	if t == nil {
+		return false
+	}
+	switch u := t.Underlying().(type) {
+	case *types.Basic:
+		return u.Info()&types.IsString != 0 || u.Kind() == types.Invalid
+	case *types.Slice:
+		if b, ok := u.Elem().Underlying().(*types.Basic); ok {
+			return b.Kind() == types.Byte || b.Info()&types.IsString != 0
+		}
+		return isTaintType(u.Elem())
+	case *types.Interface:
+		return true // error, any, fmt.Stringer …
+	}
+	return false
+}
+
+var errorType = types.Universe.Lookup("error").Type()
+
+func isErrorType(t types.Type) bool { return t != nil && types.Identical(t, errorType) }
+
+// the function a call expression calls, when it is a declared function or method
+func (a *analyser) callee(v *ast.CallExpr) types.Object {
+	switch f := ast.Unparen(v.Fun).(type) {
+	case *ast.Ident:
+		if fn, ok := a.info.Uses[f].(*types.Func); ok {
+			return fn
+		}
+	case *ast.SelectorExpr:
+		if fn, ok := a.info.Uses[f.Sel].(*types.Func); ok {
+			return fn
+		}
+	}
+	return nil
+}
+
+// e mentions an error value that stems from a call which received client bytes
+func (a *analyser) errTaintedExpr(e ast.Expr) bool {
+	found := false
+	ast.Inspect(e, func(n ast.Node) bool {
+		if id, ok := n.(*ast.Ident); ok {
+			if o := a.info.Uses[id]; o != nil && a.errTaint[o] {
+				found = true
+			}
+		}
+		return !found
+	})
+	return found
+}
+
+func (a *analyser) taintedExpr(e ast.Expr) bool {
+	switch v := ast.Unparen(e).(type) {
+	case *ast.Ident:
+		if o := a.info.Uses[v]; o != nil {
+			return a.tainted[o]
+		}
+		return a.tainted[a.info.Defs[v]]
+	case *ast.IndexExpr:
+		return a.taintedExpr(v.X)
+	case *ast.SliceExpr:
+		return a.taintedExpr(v.X)
+	case *ast.StarExpr:
+		return a.taintedExpr(v.X)
+	case *ast.UnaryExpr:
+		return a.taintedExpr(v.X)
+	case *ast.BinaryExpr:
+		return v.Op == token.ADD && (a.taintedExpr(v.X) || a.taintedExpr(v.Y))
+	case *ast.CompositeLit:
+		for _, el := range v.Elts {
+			if kv, ok := el.(*ast.KeyValueExpr); ok {
+				el = kv.Value
+			}
+			if a.taintedExpr(el) {
+				return true
+			}
+		}
+	case *ast.CallExpr:
+		if a.builtin(v.Fun, "len") || a.builtin(v.Fun, "cap") {
+			return false
+		}
+		if t := a.info.TypeOf(v); t != nil {
+			if tup, ok := t.(*types.Tuple); ok {
+				any := false
+				for i := 0; i < tup.Len(); i++ {
+					any = any || isTaintType(tup.At(i).Type())
+				}
+				if !any {
+					return false
+				}
+			} else if !isTaintType(t) {
+				return false
+			}
+		}
+		for _, arg := range v.Args {
+			if a.taintedExpr(arg) {
+				return true
+			}
+		}
+		if sel, ok := v.Fun.(*ast.SelectorExpr); ok && a.taintedExpr(sel.X) {
+			return true // err.Error(), b.String() …
+		}
+	}
+	return false
+}
+
+// flow-insensitive closure of "assigned from something tainted" over one function
+func (a *analyser) computeTaint(params *ast.FieldList, body ast.Node) {
+	a.tainted = map[types.Object]bool{}
+	a.errTaint = map[types.Object]bool{}
+	if params != nil {
+		for _, f := range params.List {
+			for _, n := range f.Names {
+				o := a.info.Defs[n]
+				if o == nil {
+					continue
+				}
+				if sl, ok := o.Type().Underlying().(*types.Slice); ok {
+					if inner, ok := sl.Elem().Underlying().(*types.Slice); ok {
+						if b, ok := inner.Elem().Underlying().(*types.Basic); ok && b.Kind() == types.Byte {
+							a.tainted[o] = true // the command words
+						}
+					}
+				}
+			}
+		}
+	}
+	if len(a.tainted) == 0 || body == nil {
+		return
+	}
+	mark := func(l ast.Expr) bool {
+		id, ok := ast.Unparen(l).(*ast.Ident)
+		if !ok || id.Name == "_" {
+			return false
+		}
+		o := a.info.Defs[id]
+		if o == nil {
+			o = a.info.Uses[id]
+		}
+		if o == nil || a.tainted[o] || a.errTaint[o] || !isTaintType(o.Type()) {
+			return false
+		}
+		a.tainted[o] = true
+		return true
+	}
+	// an error result of a call that received client bytes: not tainted when the callee returns only constant errors
+	markCall := func(l ast.Expr, call *ast.CallExpr) bool {
+		id, ok := ast.Unparen(l).(*ast.Ident)
+		if !ok || id.Name == "_" {
+			return false
+		}
+		o := a.info.Defs[id]
+		if o == nil {
+			o = a.info.Uses[id]
+		}
+		if o == nil || !isErrorType(o.Type()) {
+			return mark(l)
+		}
+		if a.tainted[o] || a.errTaint[o] {
+			return false
+		}
+		if fn := a.callee(call); fn != nil && a.x != nil && a.x.constErr[fn] {
+			return false
+		}
+		a.errTaint[o] = true
+		return true
+	}
+	for round := 0; round < 8; round++ {
+		changed := false
+		ast.Inspect(body, func(n ast.Node) bool {
+			switch v := n.(type) {
+			case *ast.AssignStmt:
+				if len(v.Lhs) == len(v.Rhs) {
+					for i := range v.Lhs {
+						if !a.taintedExpr(v.Rhs[i]) {
+							if a.errTaintedExpr(v.Rhs[i]) && isTaintType(a.info.TypeOf(v.Lhs[i])) {
+								if o := a.objOf(v.Lhs[i]); o != nil && !a.errTaint[o] && !a.tainted[o] {
+									a.errTaint[o] = true
+									changed = true
+								}
+							}
+							continue
+						}
+						if call, ok := ast.Unparen(v.Rhs[i]).(*ast.CallExpr); ok {
+							if markCall(v.Lhs[i], call) {
+								changed = true
+							}
+						} else if mark(v.Lhs[i]) {
+							changed = true
+						}
+					}
+				} else if len(v.Rhs) == 1 && a.taintedExpr(v.Rhs[0]) {
+					call, _ := ast.Unparen(v.Rhs[0]).(*ast.CallExpr)
+					for _, l := range v.Lhs {
+						if call != nil {
+							if markCall(l, call) {
+								changed = true
+							}
+						} else if mark(l) {
+							changed = true
+						}
+					}
+				}
+			case *ast.ValueSpec:
+				for i, name := range v.Names {
+					if len(v.Values) == len(v.Names) && a.taintedExpr(v.Values[i]) && mark(name) {
+						changed = true
+					} else if len(v.Values) == 1 && len(v.Names) > 1 && a.taintedExpr(v.Values[0]) && mark(name) {
+						changed = true
+					}
+				}
+			case *ast.RangeStmt:
+				if a.taintedExpr(v.X) && v.Value != nil && mark(v.Value) {
+					changed = true
+				}
+			}
+			return true
+		})
+		if !changed {
+			break
+		}
+	}
+}
+
+func (a *analyser) replyCall(v *ast.CallExpr) {
+	if a.x == nil {
+		return
+	}
+	var id *ast.Ident
+	switch f := v.Fun.(type) {
+	case *ast.Ident:
+		id = f
+	case *ast.SelectorExpr:
+		id = f.Sel
+	}
+	if id == nil || !lineCtors[id.Name] {
+		return
+	}
+	fn, ok := a.info.Uses[id].(*types.Func)
+	if !ok || fn.Pkg() == nil || !strings.HasSuffix(fn.Pkg().Path(), "/resp") {
+		return
+	}
+	lit, client, viaErr := true, false, false
+	for _, arg := range v.Args {
+		if tv, ok := a.info.Types[arg]; !ok || tv.Value == nil {
+			lit = false
+		}
+		if a.taintedExpr(arg) {
+			client = true
+		}
+		if a.errTaintedExpr(arg) {
+			viaErr = true
+		}
+	}
+	if lit {
+		a.x.literal++
+		return
+	}
+	a.x.replies = append(a.x.replies, replySite{File: a.file, Func: a.fn, Line: a.fset.Position(v.Pos()).Line, Text: a.text(v), Client: client, ViaErr: viaErr && !client})
+}
+
+// &resp.ErrorData{data: x} and friends (possible only inside package resp)
+func (a *analyser) replyLit(v *ast.CompositeLit) {
+	if a.x == nil || lineCtors[a.fn] {
+		return
+	}
+	t := a.info.TypeOf(v)
+	if t == nil {
+		return
+	}
+	named, ok := t.(*types.Named)
+	if !ok || named.Obj().Pkg() == nil || !strings.HasSuffix(named.Obj().Pkg().Path(), "/resp") || !lineTypes[named.Obj().Name()] {
+		return
+	}
+	for _, el := range v.Elts {
+		val := el
+		if kv, ok := el.(*ast.KeyValueExpr); ok {
+			val = kv.Value
+		}
+		if tv, ok := a.info.Types[val]; ok && tv.Value != nil {
+			a.x.literal++
+			continue
+		}
+		a.x.replies = append(a.x.replies, replySite{File: a.file, Func: a.fn, Line: a.fset.Position(v.Pos()).Line, Text: a.text(v), Client: a.taintedExpr(val)})
+	}
 }
 
 // every executor is entered with at least this many words (the command name): assumed when an executor is analysed,
@@ -1219,6 +1527,7 @@ func (a *analyser) expr(e ast.Node, st *state) {
 			a.makeSite(v, st)
 			return
 		}
+		a.replyCall(v)
 		if a.x != nil && len(v.Args) == 4 && !st.dead {
 			isExec := false
 			if t := a.info.TypeOf(v.Fun); t != nil && a.x.execType != nil && types.Identical(t, a.x.execType) {
@@ -1243,6 +1552,8 @@ func (a *analyser) expr(e ast.Node, st *state) {
 	case *ast.FuncLit:
 		a.closure(v, st)
 		return
+	case *ast.CompositeLit:
+		a.replyLit(v)
 	case *ast.KeyValueExpr:
 		// a struct literal's field name is not an expression
 		if _, ok := v.Key.(*ast.Ident); !ok {
@@ -2161,7 +2472,7 @@ func funcName(fd *ast.FuncDecl) string {
 
 var sitePkgs = []string{"memdb", "server", "resp", "util", "raftexample"}
 
-func extractSites(repo string) ([]siteOut, []execCall, error) {
+func extractSites(repo string) ([]siteOut, *xinfo, error) {
 	fset := token.NewFileSet()
 	l := &loader{repo: repo, fset: fset, cache: map[string]*loadedPkg{}}
 	l.std = importer.ForCompiler(fset, "source", nil)
@@ -2172,6 +2483,7 @@ func extractSites(repo string) ([]siteOut, []execCall, error) {
 		}
 	}
 	x := scanExecutors(l)
+	scanConstErr(l, x)
 	for _, p := range sitePkgs {
 		path := "github.com/innovationb1ue/RedisGO/" + p
 		lp := l.cache[path]
@@ -2188,6 +2500,7 @@ func extractSites(repo string) ([]siteOut, []execCall, error) {
 					}
 					a.fn = funcName(v)
 					a.prepare(v.Body)
+					a.computeTaint(v.Type.Params, v.Body)
 					entry := newState()
 					if obj := lp.info.Defs[v.Name]; obj != nil && x.execs[obj] && !x.escaped[obj] && !a.bail {
 						// a registered executor: its third parameter is the command, entered with ≥ execEntryMin words
@@ -2208,6 +2521,7 @@ func extractSites(repo string) ([]siteOut, []execCall, error) {
 					}
 					a.fn = "<package var>"
 					a.prepare(v)
+					a.tainted = map[types.Object]bool{}
 					for _, sp := range v.Specs {
 						for _, val := range sp.(*ast.ValueSpec).Values {
 							a.expr(val, newState())
@@ -2229,7 +2543,13 @@ func extractSites(repo string) ([]siteOut, []execCall, error) {
 		}
 		return x.calls[i].Line < x.calls[j].Line
 	})
-	return out, x.calls, nil
+	sort.SliceStable(x.replies, func(i, j int) bool {
+		if x.replies[i].File != x.replies[j].File {
+			return x.replies[i].File < x.replies[j].File
+		}
+		return x.replies[i].Line < x.replies[j].Line
+	})
+	return out, x, nil
 }
 
 func isDefOf(info *types.Info, l ast.Expr, o types.Object) bool {
@@ -2361,5 +2681,228 @@ func (a *analyser) rangeAppend(v *ast.RangeStmt, before, after *state) {
 			after.lens[y] = lenset{{n, inf}}
 		}
 		after.lge[relKey{y, x}] = 0
+	}
+}
+
+// functions of the inventoried packages whose every returned error is nil, a package-level `errors.New("constant")`, an inline
+// errors.New / fmt.Errorf of a constant, or the error of a call of such a function (least fixed point)
+func scanConstErr(l *loader, x *xinfo) {
+	x.constErr = map[types.Object]bool{}
+	type fdecl struct {
+		fd   *ast.FuncDecl
+		info *types.Info
+	}
+	var all []fdecl
+	constVar := map[types.Object]bool{}
+	isConstErrCall := func(info *types.Info, e ast.Expr) bool {
+		c, ok := ast.Unparen(e).(*ast.CallExpr)
+		if !ok {
+			return false
+		}
+		n := callName(c.Fun)
+		if (n == "errors.New" && len(c.Args) == 1) || (n == "fmt.Errorf" && len(c.Args) == 1) {
+			tv, ok := info.Types[c.Args[0]]
+			return ok && tv.Value != nil
+		}
+		return false
+	}
+	for _, p := range sitePkgs {
+		lp := l.cache["github.com/innovationb1ue/RedisGO/"+p]
+		if lp == nil {
+			continue
+		}
+		for _, f := range lp.files {
+			for _, d := range f.Decls {
+				switch v := d.(type) {
+				case *ast.FuncDecl:
+					if v.Body != nil {
+						all = append(all, fdecl{v, lp.info})
+					}
+				case *ast.GenDecl:
+					if v.Tok != token.VAR {
+						continue
+					}
+					for _, sp := range v.Specs {
+						vs := sp.(*ast.ValueSpec)
+						for i, name := range vs.Names {
+							if len(vs.Values) == len(vs.Names) && isConstErrCall(lp.info, vs.Values[i]) {
+								constVar[lp.info.Defs[name]] = true
+							}
+						}
+					}
+				}
+			}
+		}
+	}
+	// a package-level error variable must never be re-assigned
+	for _, p := range sitePkgs {
+		lp := l.cache["github.com/innovationb1ue/RedisGO/"+p]
+		if lp == nil {
+			continue
+		}
+		for _, f := range lp.files {
+			ast.Inspect(f, func(n ast.Node) bool {
+				if as, ok := n.(*ast.AssignStmt); ok {
+					for _, lh := range as.Lhs {
+						if id, ok := lh.(*ast.Ident); ok {
+							delete(constVar, lp.info.Uses[id])
+						}
+					}
+				}
+				if u, ok := n.(*ast.UnaryExpr); ok && u.Op == token.AND {
+					if id, ok := u.X.(*ast.Ident); ok {
+						delete(constVar, lp.info.Uses[id])
+					}
+				}
+				return true
+			})
+		}
+	}
+	calleeOf := func(info *types.Info, e ast.Expr) types.Object {
+		c, ok := ast.Unparen(e).(*ast.CallExpr)
+		if !ok {
+			return nil
+		}
+		switch f := ast.Unparen(c.Fun).(type) {
+		case *ast.Ident:
+			if fn, ok := info.Uses[f].(*types.Func); ok {
+				return fn
+			}
+		case *ast.SelectorExpr:
+			if fn, ok := info.Uses[f.Sel].(*types.Func); ok {
+				return fn
+			}
+		}
+		return nil
+	}
+	for round := 0; round < 6; round++ {
+		changed := false
+		for _, d := range all {
+			fd, info := d.fd, d.info
+			fn := info.Defs[fd.Name]
+			if fn == nil || x.constErr[fn] || fd.Type.Results == nil {
+				continue
+			}
+			sig, ok := fn.Type().(*types.Signature)
+			if !ok {
+				continue
+			}
+			var errIdx []int
+			for i := 0; i < sig.Results().Len(); i++ {
+				if isErrorType(sig.Results().At(i).Type()) {
+					errIdx = append(errIdx, i)
+				}
+			}
+			if len(errIdx) == 0 {
+				continue
+			}
+			var okExpr func(e ast.Expr, depth int) bool
+			okVar := func(o types.Object, depth int) bool {
+				if depth > 3 {
+					return false
+				}
+				good := true
+				ast.Inspect(fd.Body, func(n ast.Node) bool {
+					switch v := n.(type) {
+					case *ast.AssignStmt:
+						for i, lh := range v.Lhs {
+							id, isId := lh.(*ast.Ident)
+							if !isId || (info.Uses[id] != o && info.Defs[id] != o) {
+								continue
+							}
+							if len(v.Lhs) == len(v.Rhs) {
+								if !okExpr(v.Rhs[i], depth+1) {
+									good = false
+								}
+							} else if c := calleeOf(info, v.Rhs[0]); c == nil || !x.constErr[c] {
+								good = false
+							}
+						}
+					case *ast.ValueSpec:
+						for i, name := range v.Names {
+							if info.Defs[name] == o && len(v.Values) > 0 {
+								if len(v.Values) != len(v.Names) || !okExpr(v.Values[i], depth+1) {
+									good = false
+								}
+							}
+						}
+					case *ast.UnaryExpr:
+						if id, isId := v.X.(*ast.Ident); isId && v.Op == token.AND && info.Uses[id] == o {
+							good = false
+						}
+					}
+					return good
+				})
+				return good
+			}
+			okExpr = func(e ast.Expr, depth int) bool {
+				e = ast.Unparen(e)
+				if id, isId := e.(*ast.Ident); isId {
+					if id.Name == "nil" {
+						return true
+					}
+					o := info.Uses[id]
+					if o == nil {
+						return false
+					}
+					if constVar[o] {
+						return true
+					}
+					if v, isVar := o.(*types.Var); isVar && !v.IsField() && o.Parent() != o.Pkg().Scope() {
+						return okVar(o, depth)
+					}
+					return false
+				}
+				if isConstErrCall(info, e) {
+					return true
+				}
+				if c := calleeOf(info, e); c != nil && x.constErr[c] {
+					return true
+				}
+				return false
+			}
+			good := true
+			ast.Inspect(fd.Body, func(n ast.Node) bool {
+				if _, isLit := n.(*ast.FuncLit); isLit {
+					return false
+				}
+				ret, isRet := n.(*ast.ReturnStmt)
+				if !isRet || !good {
+					return good
+				}
+				switch {
+				case len(ret.Results) == 0: // named results
+					k := 0
+					for _, f := range fd.Type.Results.List {
+						for _, name := range f.Names {
+							for _, i := range errIdx {
+								if i == k && !okVar(info.Defs[name], 0) {
+									good = false
+								}
+							}
+							k++
+						}
+					}
+				case len(ret.Results) == sig.Results().Len():
+					for _, i := range errIdx {
+						if !okExpr(ret.Results[i], 0) {
+							good = false
+						}
+					}
+				default:
+					if c := calleeOf(info, ret.Results[0]); c == nil || !x.constErr[c] {
+						good = false
+					}
+				}
+				return good
+			})
+			if good {
+				x.constErr[fn] = true
+				changed = true
+			}
+		}
+		if !changed {
+			break
+		}
 	}
 }
